@@ -397,6 +397,44 @@ func evalRT(c rtCase) lib.Outcome {
 			return o
 		}
 	}
+	// a second session of the same server process asks for the same pattern with the opposite polarity while the first
+	// one's filter is still in use: each session keeps selecting what its own user specified
+	if !isNoop(c.Pattern) {
+		other := regex.Invert
+		if c.Invert {
+			other = regex.Default
+		}
+		r3c, err := regex.New(c.Pattern, other)
+		if err != nil {
+			return o
+		}
+		ser3, err := r3c.Serialize()
+		if err != nil {
+			o.Fail = "Serialize (second session): " + err.Error()
+			return o
+		}
+		r3, err := regex.Deserialize(ser3)
+		if err != nil {
+			o.Fail = fmt.Sprintf("Deserialize(%q) (second session): %v", ser3, err)
+			return o
+		}
+		o.Classes = append(o.Classes, "second-session-opposite-polarity")
+		for _, l := range c.Lines {
+			m := direct.MatchString(l)
+			if got := r3.MatchString(l); got != (m == c.Invert) {
+				o.Fail = fmt.Sprintf("second session: decoded regex %v selects=%v line %q, its user's pattern %q (invert=%v) selects=%v", r3, got, l, c.Pattern, !c.Invert, m == c.Invert)
+				return o
+			}
+			if got := r2.MatchString(l); got != (m != c.Invert) {
+				o.Fail = fmt.Sprintf("after a second session decoded the same pattern with invert=%v, the first session's regex %v selects=%v line %q; its user's pattern %q (invert=%v) selects=%v", !c.Invert, r2, got, l, c.Pattern, c.Invert, m != c.Invert)
+				return o
+			}
+			if got := r1.MatchString(l); got != (m != c.Invert) {
+				o.Fail = fmt.Sprintf("after a second session built the same pattern with invert=%v, the first client's regex %v selects=%v line %q; want %v", !c.Invert, r1, got, l, m != c.Invert)
+				return o
+			}
+		}
+	}
 	return o
 }
 
